@@ -56,6 +56,20 @@ CHECKS = {
         technique='SMT translation validation of emitted JavaScript (symbolic data) + MIR symbolic execution for literals; node replay',
         design='§4 C03',
     ),
+    'C06': dict(
+        engine='J', category='translation_validation',
+        text='Per binding site, for ALL update trees: the emitted code is executed symbolically in update mode (C=false; U, item/index/slot trees, '
+             'data and dynamic keys symbolic) and z3 decides  touched(some dependency the evaluation reads) => guard  for text, attribute families, '
+             'wx:if keys (must be unguarded), wx:for list trees, slot names and template data trees, with no scope / wx:for / nested wx:for / slot values. '
+             'touched walks the tree as the runtime marks it; ?: && || ?? are path sensitive; over-approximation is allowed.  A sat verdict is confirmed in '
+             'node by create(D0); update(D1,U) vs create(D1) over single-leaf changes with exact or coarsened trees.  That the TypeScript runtime hands down '
+             'sound item trees and re-invokes children is outside (assume-guarantee per site; histories add nothing to a per-step obligation).',
+        note='Trusted: jssym interpreter and value model, the touched predicate and tree well-formedness (node = undefined | true | object with a marked '
+             'descendant), helper functions Z / Q.a / Q.b interpreted from the real runtime string.  Bounded program family (22 dependency shapes x site kinds '
+             'x scopes; quick tier samples 3 extra site kinds per expression).',
+        technique='SMT translation validation of emitted JavaScript in update mode (symbolic update trees), node replay',
+        design='§4 C06',
+    ),
     'C08': dict(
         engine='M', category='other',
         text='Routine-level bounded check of token conservation and meaningful whitespace: the MIR of convert_class_names_and_rpx_in_block, '
